@@ -1,7 +1,7 @@
 (* Entry points [sx -> sx] for the schema pipeline: decode a case, run the model, encode what the
    harness observes of the Go run. *)
 From Coq Require Import List ZArith Bool.
-From Verif Require Spec.Visited Spec.Rules.
+From Verif Require Spec.Visited Spec.Rules Spec.Walk.
 From Verif Require Import Base.Sx Base.GoVal Base.F64 Schema.Ast Schema.Pipeline Schema.Simple Schema.Draft4 Schema.Classes Schema.Helpers Schema.Post.
 Import ListNotations.
 Open Scope Z_scope.
@@ -196,3 +196,4 @@ Definition run_visited (s : sx) : sx :=
   end.
 
 Definition run_rules (s : sx) : sx := Spec.Rules.run_rules s.
+Definition run_walk (s : sx) : sx := Spec.Walk.run_walk s.
